@@ -60,6 +60,11 @@ class State:
         return b in self.find(a)
 
 
+NO_INLINE = {'gambit.cli.common.get_sequence_files', 'gambit.cli.common.kspec_from_params', 'gambit.cli.common.warn_duplicate_file_ids',
+             'gambit.cli.common.check_params_group', 'gambit.cli.common.print_table', 'gambit.cli.common.get_revision_info'}
+RELEVANT_WORDS = ('kmerspec', 'load_signatures', 'calc_file_signatures', 'jaccarddist', 'query(', 'query_parse')
+
+
 class Interp:
     def __init__(self, ctx, fi):
         self.ctx, self.fi, self.m = ctx, fi, ctx.model
@@ -68,6 +73,77 @@ class Interp:
         self.outputs = []     # (call, state)
         self.paths = 0
         self.is_dist = fi.qualname.endswith('dist_cmd')
+        self.frames = []      # return collectors of inlined helper calls
+        self.callsites = []   # text of the helper calls being inlined (innermost last)
+        self.inlined = set()
+
+    # ------------------------------------------------------------------ helper inlining
+    def inlinable(self, call):
+        """FuncInfo of a helper defined in gambit.cli.* (or nested in the command) that handles signatures / parameters."""
+        target = None
+        r = self.m.resolve_call(self.fi, call)
+        if r in self.m.functions and r.startswith('gambit.cli.') and r not in NO_INLINE and self.m.functions[r].cls is None:
+            target = self.m.functions[r]
+        elif isinstance(call.func, ast.Name):
+            for n in ast.walk(self.fi.node):
+                if isinstance(n, ast.FunctionDef) and n is not self.fi.node and n.name == call.func.id:
+                    from ..model import FuncInfo
+                    target = FuncInfo(f'{self.fi.qualname}.<locals>.{n.name}', n, self.fi.module)
+        if target is None or len(self.frames) >= 3:
+            return None
+        src = ast.unparse(target.node)
+        if not any(w in src for w in RELEVANT_WORDS):
+            return None
+        if any(isinstance(a, ast.Starred) for a in call.args) or any(k.arg is None for k in call.keywords):
+            return None
+        return target
+
+    def inline(self, call, target, st):
+        """[(return value, caller state)] for every non-raising abstract path through the helper."""
+        a = target.node.args
+        names = [x.arg for x in a.posonlyargs + a.args]
+        bound = {}
+        alias = {}
+        for i, arg in enumerate(call.args):
+            if i < len(names):
+                bound[names[i]] = self.ev(arg, st)
+                if isinstance(arg, ast.Name):
+                    alias[names[i]] = arg.id
+        for k in call.keywords:
+            bound[k.arg] = self.ev(k.value, st)
+            if isinstance(k.value, ast.Name):
+                alias[k.arg] = k.value.id
+        defaults = dict(zip(reversed(names), reversed(a.defaults)))
+        for n in names:
+            if n not in bound:
+                bound[n] = self.ev(defaults[n], st) if n in defaults else UNKNOWN
+        for x, d in zip(a.kwonlyargs, a.kw_defaults):
+            if x.arg not in bound:
+                bound[x.arg] = self.ev(d, st) if d is not None else UNKNOWN
+        callee_state = State(bound, st.classes, st.trail + (f'-> {target.name}()',), st.mismatch, st.explicit)
+        frame = []
+        self.frames.append(frame)
+        self.callsites.append(u(call))
+        self.inlined.add(target.qualname)
+        saved_fi = self.fi
+        from ..model import FuncInfo
+        self.fi = FuncInfo(target.qualname, target.node, target.module)
+        try:
+            ends = self.block(target.node.body, [callee_state])
+        finally:
+            self.fi = saved_fi
+            self.frames.pop()
+            self.callsites.pop()
+        frame += [(NONE, e) for e in ends]
+        outs = []
+        for val, cst in frame:
+            st2 = State(st.env, cst.classes, cst.trail + (f'<- {target.name}()',), cst.mismatch, cst.explicit)
+            for p, var in alias.items():
+                v = cst.env.get(p)
+                if v is not None and v is not st.env.get(var) and st.env.get(var, UNKNOWN).kind in ('unknown', 'kspec?'):
+                    st2.env[var] = v          # a refinement of the caller's variable made inside the helper holds afterwards
+            outs.append((val, st2))
+        return outs
 
     # ------------------------------------------------------------------ expressions
     def resolve(self, call):
@@ -104,7 +180,11 @@ class Interp:
         if isinstance(e, ast.Call):
             f = self.resolve(e)
             if f.endswith('load_signatures'):
-                return Val('sig', f'load:{u(e.args[0]) if e.args else "?"}')
+                tag = u(e.args[0]) if e.args else '?'
+                if self.callsites:
+                    # a load inside an inlined helper is a distinct entity per call site of the helper
+                    tag = f'{tag} in ' + ' > '.join(self.callsites)
+                return Val('sig', f'load:{tag}')
             if f.endswith('get_database'):
                 return Val('db', 'DB')
             if f.endswith('kspec_from_params'):
@@ -257,8 +337,10 @@ class Interp:
             self.raises.append((s, st))
             return []
         if isinstance(s, ast.Return):
-            if s.value is not None:
-                self.ev(s.value, st)
+            v = self.ev(s.value, st) if s.value is not None else NONE
+            if self.frames:
+                self.frames[-1].append((v, st))
+                return []
             self.paths += 1
             return []
         if isinstance(s, ast.Assert):
@@ -270,25 +352,32 @@ class Interp:
                     self.paths += 1
             return outs
         if isinstance(s, ast.Assign):
-            val = self.ev(s.value, st)
-            st = st.copy()
-            for t in s.targets:
-                if isinstance(t, ast.Name):
-                    st.env[t.id] = val
-                elif isinstance(t, (ast.Tuple, ast.List)):
-                    for el in t.elts:
-                        if isinstance(el, ast.Name):
-                            st.env[el.id] = OTHER
-            return [st]
+            target = self.inlinable(s.value) if isinstance(s.value, ast.Call) else None
+            outcomes = self.inline(s.value, target, st) if target is not None else [(self.ev(s.value, st), st)]
+            outs = []
+            for val, st1 in outcomes:
+                st1 = st1.copy()
+                for t in s.targets:
+                    if isinstance(t, ast.Name):
+                        st1.env[t.id] = val
+                    elif isinstance(t, (ast.Tuple, ast.List)):
+                        for el in t.elts:
+                            if isinstance(el, ast.Name):
+                                st1.env[el.id] = OTHER
+                outs.append(st1)
+            return outs
         if isinstance(s, ast.AnnAssign):
             if s.value is not None and isinstance(s.target, ast.Name):
                 st = st.copy()
                 st.env[s.target.id] = self.ev(s.value, st)
             return [st]
         if isinstance(s, ast.Expr):
+            target = self.inlinable(s.value) if isinstance(s.value, ast.Call) else None
+            if target is not None:
+                return [st1 for _, st1 in self.inline(s.value, target, st)]
             self.ev(s.value, st)
             return [st]
-        if isinstance(s, (ast.Pass, ast.Import, ast.ImportFrom)):
+        if isinstance(s, (ast.Pass, ast.Import, ast.ImportFrom, ast.FunctionDef)):
             return [st]
         if isinstance(s, (ast.For, ast.While)):
             # reporting loops: body executed zero or one time (no state that matters is loop-carried: checked)
